@@ -30,6 +30,7 @@ class StepBudgetExceeded(Exception):
 
 
 EPS = 1e-6
+STATS = {"ties": 0}  # equal-time timer batches seen by the loops of the current execution
 
 
 class VTimer(asyncio.TimerHandle):
@@ -143,6 +144,8 @@ class VLoop(asyncio.BaseEventLoop):
                 h._scheduled = False
                 due.append(h)
             if due:
+                if len({h._when for h in due}) < len(due):
+                    STATS["ties"] += 1
                 due.sort(key=lambda h: (h._when, getattr(h, "_vrank", 0), getattr(h, "_vseq", 0)))
                 self._ready.extend(due)
 
@@ -219,11 +222,87 @@ class VLoop(asyncio.BaseEventLoop):
         return list(self.errors)
 
 
+# ---------------------------------------------------------------------------
+# fidelity audit: the *stock* asyncio scheduling step driven by a virtual selector
+# ---------------------------------------------------------------------------
+class _VirtualSelector:
+    """Stands in for the OS selector: never has I/O events; a blocking select() is
+    where virtual time passes (and where the harness's idle hook is consulted)."""
+
+    def __init__(self, loop):
+        self._loop = loop
+
+    def select(self, timeout=None):
+        lp = self._loop
+        if timeout == 0:
+            return []
+        # nothing is ready: the library is quiescent
+        if lp.idle_hook is not None:
+            lp.idle_hook(lp)
+            if lp._ready:
+                return []
+        live = [h._when for h in lp._scheduled if not h._cancelled]
+        if not live:
+            raise Deadlock()
+        nxt = min(live)
+        if nxt > lp.horizon:
+            raise HorizonExceeded(nxt)
+        if nxt > lp._vtime:
+            lp._vtime = nxt
+        return []
+
+    def register(self, *a, **k):
+        raise RuntimeError("no real I/O on the virtual selector")
+
+    def unregister(self, *a, **k):
+        return None
+
+    def modify(self, *a, **k):
+        raise RuntimeError("no real I/O on the virtual selector")
+
+    def close(self):
+        pass
+
+    def get_map(self):
+        return {}
+
+
+class StockVLoop(VLoop):
+    """Same virtual clock and idle hook, but asyncio's own ``BaseEventLoop._run_once``
+    does the scheduling (timer heap order, ready queue handling).  Used only to audit
+    that VLoop's re-implemented step gives the same observations on tie-free executions."""
+
+    def __init__(self, horizon: float = 60.0, max_steps: int = 2_000_000):
+        super().__init__(horizon=horizon, max_steps=max_steps)
+        self._selector = _VirtualSelector(self)
+
+    def _run_once(self):
+        self.steps += 1
+        if self.steps > self.max_steps:
+            raise StepBudgetExceeded(self.steps)
+        asyncio.BaseEventLoop._run_once(self)
+
+    def close(self):
+        try:
+            super().close()
+        finally:
+            self._selector = None
+
+
+_LOOP_KIND = {"kind": "vloop"}
+
+
+def set_loop_kind(kind: str) -> None:
+    assert kind in ("vloop", "stock")
+    _LOOP_KIND["kind"] = kind
+
+
 def new_loop(horizon: float = 60.0, cancel_order: str = "fifo") -> VLoop:
     from . import determinism
 
     determinism.install()
     determinism.set_order(cancel_order)
-    loop = VLoop(horizon=horizon)
+    STATS["ties"] = 0
+    loop = (StockVLoop if _LOOP_KIND["kind"] == "stock" else VLoop)(horizon=horizon)
     asyncio.set_event_loop(loop)
     return loop
